@@ -19,7 +19,7 @@ from pdfminer.pdfcolor import PDFColorSpace
 from pdfminer.pdfexceptions import PDFTypeError, PDFValueError
 from pdfminer.pdffont import PDFFont
 from pdfminer.pdfinterp import Color, PDFGraphicState
-from pdfminer.pdftypes import PDFStream
+from pdfminer.pdftypes import PDFStream, resolve1
 from pdfminer.utils import (
     INF,
     LTComponentT,
@@ -323,12 +323,18 @@ class LTImage(LTComponent):
         LTComponent.__init__(self, bbox)
         self.name = name
         self.stream = stream
-        self.srcsize = (stream.get_any(("W", "Width")), stream.get_any(("H", "Height")))
-        self.imagemask = stream.get_any(("IM", "ImageMask"))
-        self.bits = stream.get_any(("BPC", "BitsPerComponent"), 1)
-        self.colorspace = stream.get_any(("CS", "ColorSpace"))
+        # any entry of the image dictionary may be an indirect object
+        self.srcsize = (
+            resolve1(stream.get_any(("W", "Width"))),
+            resolve1(stream.get_any(("H", "Height"))),
+        )
+        self.imagemask = resolve1(stream.get_any(("IM", "ImageMask")))
+        self.bits = resolve1(stream.get_any(("BPC", "BitsPerComponent"), 1))
+        self.colorspace = resolve1(stream.get_any(("CS", "ColorSpace")))
         if not isinstance(self.colorspace, list):
             self.colorspace = [self.colorspace]
+        else:
+            self.colorspace = [resolve1(c) for c in self.colorspace]
 
     def __repr__(self) -> str:
         return f"<{self.__class__.__name__}({self.name}) {bbox2str(self.bbox)} {self.srcsize!r}>"
